@@ -371,8 +371,15 @@ def check_collector(ck: Checker, rid: str):
     ok_res = [n for n in cfg.nodes if header_expr(n) is not None and any(method_of(c)[1] == 'set_result' and dotted(method_of(c)[0]) == 'self._future_' for c in calls_in(header_expr(n)))]
     term_tests = {}
     for n in cfg.nodes:
-        if n.kind == 'test' and isinstance(n.ast, ast.Compare) and isinstance(n.ast.ops[0], ast.Eq) and ('ENOTBLK' in norm_text(n.ast) or 'SIGTERM' in norm_text(n.ast) or norm_text(n.ast.comparators[0]) == '15'):
-            term_tests[n.id] = 'T'
+        if n.kind != 'test':
+            continue
+        t_, neg_ = n.ast, False
+        while isinstance(t_, ast.UnaryOp) and isinstance(t_.op, ast.Not):
+            t_, neg_ = t_.operand, not neg_
+        if isinstance(t_, ast.Compare) and len(t_.ops) == 1 and isinstance(t_.ops[0], (ast.Eq, ast.NotEq)) and ('ENOTBLK' in norm_text(t_) or 'SIGTERM' in norm_text(t_) or norm_text(t_.comparators[0]) == '15' or norm_text(t_.left) == '15'):
+            if isinstance(t_.ops[0], ast.NotEq):
+                neg_ = not neg_
+            term_tests[n.id] = 'F' if neg_ else 'T'
     if not eof:
         bad.append('EOF on the result pipe (child killed / died before sending) is not handled')
     elif ok_res:
